@@ -334,6 +334,12 @@ func zzNsDoc() *zzX {
 		u := &zzX{name: "U", attrs: [][2]interface{}{{"xmlns", []byte("")}}, kids: []*zzX{{name: "w", kids: []*zzX{{text: zzVal("t3")}}}}}
 		root.kids = append(root.kids, u, &zzX{name: "V", uri: uriA, kids: []*zzX{{text: zzVal("t4")}}})
 	}
+	// child 1c: an element that declares p -> uriB again for itself (same prefix, same URI as the
+	// root's declaration) and closes; the sibling after it still relies on the root's declaration
+	if pfx && zz.NondetBool("redeclare") {
+		in := &zzX{name: "N", prefix: "p", uri: uriB, attrs: [][2]interface{}{{"xmlns:p", []byte(uriB)}}, kids: []*zzX{{text: zzVal("t5")}}}
+		root.kids = append(root.kids, in, &zzX{name: "L", prefix: "p", uri: uriB, kids: []*zzX{{text: zzVal("t6")}}})
+	}
 	// child 2: binds uriB to another prefix q (same URI, later declaration) and uses it
 	if zz.NondetBool("rebind") {
 		c2 := &zzX{name: "Q", prefix: "q", uri: uriB, attrs: [][2]interface{}{{"xmlns:q", []byte(uriB)}},
